@@ -12,7 +12,7 @@ CLAIMED = {
    note="Release-profile arithmetic. Step-fuel, depth and allocator budgets end runaway runs; such endings are C03 verdicts, not C01 ones. Worker aborts (SIGSEGV/SIGABRT) are attributed to the in-flight run and confirmed by solo replay.",
    tech="deterministic simulation: seeded workload + line-fault injection, per-byte crash oracle"),
  "C02": dict(cat="fault_enumeration", ref="DESIGN.md §3 C02",
-   text="Base files are produced by the engine's own writers (18 extensions, PSF/raw fonts, TDF bundles, 5 palette formats, clipboard payloads) from seeded documents; a simulated disk applies 12 stored-byte fault kinds (short, torn sector, lost sector, stale tail, bit rot, overwrite, misdirected and duplicated sector, misnamed file, SAUCE-tail-only, COMNT cut, header extreme) singly and in combinations of 2-3, plus real-file-system legs (missing, directory, empty, no extension). Every entry point named by the property is called on the damaged bytes; oracle: returns Ok/Err/None, no panic, worker alive; the loader's drain loop runs on virtual sleeps with decode threads gated. In addition the single-fault space (every truncation length, every position x {bit 0, bit 7, 0x00, 0xFF, 0x1A}, every aligned 16-byte run zeroed) of 2 (quick) / 64 (thorough) base files of up to 5 200 bytes is enumerated completely by run index; multi-fault combinations are sampled.",
+   text="Base files are produced by the engine's own writers (18 extensions, PSF/raw fonts, TDF bundles, 5 palette formats, clipboard payloads) from seeded documents; a simulated disk applies 12 stored-byte fault kinds (short, torn sector, lost sector, stale tail, bit rot, overwrite, misdirected and duplicated sector, misnamed file, SAUCE-tail-only, COMNT cut, header extreme) singly and in combinations of 2-3, plus real-file-system legs (missing, directory, empty, no extension). Every entry point named by the property is called on the damaged bytes; oracle: returns Ok/Err/None, no panic, worker alive; the loader's drain loop runs on virtual sleeps with decode threads gated. Two sweeps are complete by run index: every prefix (truncation) of 2 (quick) / 6 (thorough) base files for each of the 22 readers, and the whole single-fault space (every truncation, every position x {bit 0, bit 7, 0x00, 0xFF, 0x1A}, every aligned 16-byte run zeroed) of 2 / 64 base files of up to 5 200 bytes. IcyDraw files are additionally damaged inside their framing (zTXt records rewritten and re-framed with correct base64/zlib/CRC). Multi-fault combinations are sampled.",
    note="Nothing is asserted about what a damaged file loads as. Budget overruns are C03 verdicts. Complete only per enumerated base file; across base files and for multi-fault combinations it is sampling.",
    tech="deterministic simulation: storage fault injection on writer-produced files, crash oracle"),
  "C03": dict(cat="exploration", ref="DESIGN.md §3 C03",
@@ -32,7 +32,7 @@ CLAIMED = {
    note="Scoped: the unchecked conversions inside the IcyDraw loader sit behind base64+zlib+PNG framing and are reached only when a fault survives that framing. An invalid char is observed numerically after the fact.",
    tech="deterministic simulation: post-event scalar-value monitor under line, disk and clipboard faults"),
  "C14": dict(cat="exploration", ref="DESIGN.md §3 C14",
-   text="Seeded search over decode-completion orders and poll placements with the engine's real decode threads parked at a gate and released one at a time; the canonical schedule space for k<=3 images (33 561 schedules, <=2 polls per gap) is swept completely by run index, larger k sampled. Oracles: rectangularity and declared-raster-size on every decode, arrival-order/shadowing reference model after every poll, no delivery of unfinished decodes, exactly-once, poll never blocks (5 s watchdog, confirmed by solo replay), bounded liveness after all releases. Sampling, not proof.",
+   text="Seeded search over decode-completion orders and poll placements with the engine's real decode threads parked at a gate and released one at a time; the canonical schedule space for k<=3 images (33 561 schedules, <=2 polls per gap) is swept completely by run index, larger k sampled. Oracles: rectangularity and declared-raster-size on every decode, arrival-order/shadowing reference model after every poll, no delivery of unfinished decodes, exactly-once, poll never blocks (5 s watchdog, confirmed by solo replay), bounded liveness after all releases. One run in eight (beyond the sweep) loads the payloads as an ANSI file: the loader's drain loop runs on virtual sleeps under three release schedules and the resulting image layers must equal the arrival-order/shadowing model. Sampling, not proof.",
    note="Trusts: the gate hook (cfg icy_engine_verif) parks a decode before it reads its payload; the reference image of an arrival is computed by calling the real Sixel::parse_from synchronously; font cell is 8x16 in these runs. 'Never blocks' is a 5 s wall-clock judgement on a microsecond call.",
    tech="deterministic simulation: gated real threads, seeded schedule search, reference-model oracle"),
  "C16": dict(cat="exploration", ref="DESIGN.md §3 C16 (first sentence only)",
